@@ -81,7 +81,16 @@ def primitive_cases(ctx, n):
 
 
 def documented(spec):
-    """the documented domain of the property (DESIGN C09)"""
+    """the documented domain of the property (DESIGN C09): variables, labels that refer to variables and
+    parameters, path dependencies, parameters.  A label that refers to a path dependency is inside it only
+    in so far as the environment has a variable (see Correction 18: without one the first label is
+    filed as a substitution and the dependency token stays - observed, outside the stated domain)"""
+    env = spec["env"]
+    if not env.get("variables"):
+        depnames = [d.get("name") for d in (env.get("dependencies") or {}).get("paths", [])]
+        for v in (env.get("labels") or {}).values():
+            if any(("$(%s)" % d) in str(v) for d in depnames):
+                return False
     for v in spec["env"].get("variables", {}).values():
         if "$" in str(v):
             return False
@@ -189,10 +198,66 @@ def monitor_factory(ctx):
     return monitor
 
 
+def label_first_corpus(dep_dir):
+    """the specification of Correction 18 (no variables block, a label below a path dependency): outside
+    the stated domain, not judged; model and implementation are compared on it on every run"""
+    return {"description": {"name": "lbl", "description": "a label that refers to a path dependency"},
+            "env": {"variables": {}, "labels": {"TOOL": "$(DEPDIR)/bin/tool"},
+                    "dependencies": {"paths": [{"name": "DEPDIR", "path": dep_dir}]}},
+            "study": [{"name": "use", "description": "uses the label", "run": {"cmd": "$(TOOL) --version"}}]}
+
+
+def envadd_cases(ctx, n):
+    """`StudyEnvironment.add` item by item - which definitions become labels, what a repeated name does -
+    and `apply_environment` on the result, against Model/Env.lean"""
+    from maestrowf.datastructures.core import StudyEnvironment
+    from maestrowf.datastructures.environment import Variable, PathDependency
+    rng = ctx.rng
+    cases = []
+    words = SS.WORDS + ["$(A)", "$(B)", "$(N)", "$(L)", "$(M)", "$(DEP)", "$(L)/x", "[$(M)]", "$(", "$"]
+    for _ in range(n):
+        items = []
+        for _k in range(rng.randint(0, 5)):
+            if rng.random() < 0.2:
+                items.append(("d", rng.choice(["DEP", "D2", "A"]), rng.choice(["/tmp", "/usr", "/usr/lib"])))
+            else:
+                items.append(("v", rng.choice(["A", "B", "N", "L", "M", "DEP"]),
+                              rng.choice(["va", "x y", "/p/q", "<$(A)>", "pre-$(N)-post", "$HOME/x", "$(B)/$(A)",
+                                          "$(DEP)/bin", "$(L)+", 1, 2.5, 0, 7])))
+        text = " ".join(rng.choice(words) for _ in range(rng.randint(0, 6)))
+        env = StudyEnvironment()
+        try:
+            for it in items:
+                env.add(PathDependency(it[1], it[2]) if it[0] == "d" else Variable(it[1], it[2]))
+            out = "labels=%s deps=%s subs=%s reg=%d out=%s" % (
+                ",".join(hx(k) for k in env.labels), ",".join(hx(k) for k in env.dependencies),
+                ",".join(hx(k) for k in env.substitutions), int("$" in env._tokens),
+                hx(env.apply_environment(text)))
+        except ValueError:
+            out = "ValueError"
+        enc = ",".join("d:%s:%s" % (hx(it[1]), hx(it[2])) if it[0] == "d" else
+                       "v:%s:%s:%s" % (hx(it[1]), hx(str(it[2])), "s" if isinstance(it[2], str) else "n")
+                       for it in items)
+        cases.append(Case({"kind": "envadd", "items": [list(map(str, it)) for it in items], "text": text},
+                          ["subst.envadd items=%s text=%s" % (enc, hx(text))], [out], [],
+                          any(isinstance(it[2], str) and "$" in it[2] for it in items), key="envadd:%s:%s" % (enc, text)))
+    return cases
+
+
 def run(ctx, escalated=False):
     quick = ctx.tier == "quick" and not escalated
     cases = primitive_cases(ctx, 2500 if quick else 80000)
+    cases += envadd_cases(ctx, 1500 if quick else 40000)
     mon = monitor_factory(ctx)
+    import os as _os
+    depdir = _os.path.join(ctx.scratch, "depdir")
+    _os.makedirs(depdir, exist_ok=True)
+    c = expprop.one_case(ctx, "lbl", adversarial=False, monitor=mon, pgen=False, spec=label_first_corpus(depdir),
+                         hash_ws=False)
+    if c is not None:
+        c.data["kind"] = "study"
+        cases.append(c)
+        ctx.count("label-first-corpus")
     n = 500 if quick else 15000
     judged = 0
     for k in range(n):
